@@ -112,3 +112,12 @@ package ontology
 //@   atcall NewDelete forall r Relationship :: SpecEdges[r] ==> (forall i int :: 0 <= i && i < len(ids) ==> r.From != ids[i] && r.To != ids[i])
 //@   modifies *
 //@   loop 0 invariant forall r Relationship :: SpecEdges[r] ==> (forall j int :: 0 <= j && j < __ri(0) ==> r.From != ids[j] && r.To != ids[j])
+
+//@ # ---- the Writer interface as seen by services that keep their own tables next to the ontology:
+//@ # deleting a resource is recorded in ghost state (the implementation, dagWriter.DeleteResource,
+//@ # is under contract above: it removes the resource with its incoming and outgoing relationships)
+//@ ghost SpecResourceDeleted map[ID]bool
+//@ trusted func (w Writer) DeleteResource(ctx context.Context, id ID) (err error)
+//@   ensures err == nil ==> SpecResourceDeleted[id]
+//@   ensures forall x ID :: x != id ==> SpecResourceDeleted[x] == old(SpecResourceDeleted[x])
+//@   modifies SpecResourceDeleted
